@@ -221,3 +221,25 @@ Theorem value_error_mode_independent : forall f f' ar cns toks st1 st2,
   parse f true toks = parse f false toks.
 Proof. exact modes_agree_after_scan. Qed.
 Print Assumptions value_error_mode_independent.
+
+(* ---- the first two theorems of this file again, under a hypothesis that formats with multi-valued options meet ----
+   opts_ok asks conv_input (o_default o) of every option, and a multi-valued option keeps the list [] as default
+   (conv_input (VList []) = false; ClassifyLemmas.ex_h_not_opts_ok).  opts_ok_w asks it only of the options whose
+   value is not required - the only ones whose default is ever stored: opts_ok f' -> opts_ok_w f'. *)
+Theorem strict_error_kinds_w : forall f len toks f' arguments cns,
+  aug_format f = Ok (f', arguments, cns) -> opts_ok_w f' ->
+  forall k, parse f len toks = Err k -> allowed k /\ (len = true -> k = ValueError).
+Proof. exact parse_error_kinds_w. Qed.
+Print Assumptions strict_error_kinds_w.
+Theorem lenient_total_w : forall f f' ar cns toks,
+  aug_format f = Ok (f', ar, cns) -> opts_ok_w f' ->
+  parse f true toks <> Err NoSuchOption /\ parse f true toks <> Err CannotParse.
+Proof. exact lenient_no_parse_error_w. Qed.
+Print Assumptions lenient_total_w.
+Theorem bad_option_value_rejected_w : forall f f' ar cns toks st1 st2 n v,
+  aug_format f = Ok (f', ar, cns) -> opts_ok_w f' -> scans f' toks st1 ->
+  insert_missing ar cns false st1 = Ok st2 -> missing_required ar st2 = false ->
+  In (n, v) (ps_opts st1) -> bad_opt f n v ->
+  parse f false toks = Err ValueError.
+Proof. exact bad_option_value_w. Qed.
+Print Assumptions bad_option_value_rejected_w.
